@@ -117,7 +117,7 @@ def assign_stream(ctx, rng, n, seen, all_hist):
     a[inds] lacks, lacks blocks a[inds] stores, same count at other positions, none, all; zero blocks stored or not; blocks in shuffled order),
     for slices / masks / index arrays / mixed integer indices, compared with the numpy assignment on the dense forms; several assignments to the
     same tensor in a row, so that the block pattern of `a` is itself the result of earlier assignments"""
-    progs = [npc_gen.make_program(rng, ctx.tier, record_coq=0, keep_flagged=True, rich=(i % 2 == 1), sparse_values=True,
+    progs = [npc_gen.make_program(rng, ctx.tier, record_coq=0, keep_flagged=True, rich=(i % 2 == 1), sparse_values=True, strict_alias=True,
                                   op_weights=ASSIGN_WEIGHTS, p_missing=ASSIGN_P_MISSING) for i in range(n)]
     for p in progs:
         p['nsteps'] += 3
@@ -172,7 +172,7 @@ COV_EXCLUDED_FUNCS = ('svd', 'qr', 'lq', 'polar', 'pinv', 'eigh', 'eig', 'eigval
 
 
 def ext_programs(rng, tier, n):
-    return [npc_gen.make_program(rng, tier, record_coq=0, p_chain=0.6, keep_flagged=True, rich=(i % 2 == 1), sparse_values=True, ext=True, op_weights=EXT_WEIGHTS,
+    return [npc_gen.make_program(rng, tier, record_coq=0, p_chain=0.6, keep_flagged=True, rich=(i % 2 == 1), sparse_values=True, strict_alias=True, ext=True, op_weights=EXT_WEIGHTS,
                                  p_missing=EXT_P_MISSING, leg_style='single-block' if i % 5 == 4 else None) for i in range(n)]
 
 
@@ -286,17 +286,17 @@ def main(ctx):
     # block pattern) by add / sub / iadd_prefactor_other / (i)binary_blockwise / inner / tensordot; tensors whose dense form is right
     # but whose cached flags are wrong stay alive (keep_flagged) so that operations trusting the flag are compared with numpy
     # sparse_values: in all programs the value of `a[inds] = value` has a block sparsity of its own (see npc_gen.OpSetitem.sparsify)
-    programs = corpus + [npc_gen.make_program(rng, ctx.tier, record_coq=2, p_chain=P_CHAIN, keep_flagged=True, rich=(i % 2 == 1), sparse_values=True)
+    programs = corpus + [npc_gen.make_program(rng, ctx.tier, record_coq=2, p_chain=P_CHAIN, keep_flagged=True, rich=(i % 2 == 1), sparse_values=True, strict_alias=True)
                          for i in range(nprog)]
     seen = {}
     all_hist = {}
     coq_done = {}
     # line coverage of np_conserved.py under a tracer: one chunk in the background while the streams run
     from concurrent.futures import ThreadPoolExecutor
-    cov_rng = __import__('random').Random(rng.randrange(1 << 30))
+    cov_rng = __import__('random').Random(7919 * int(getattr(ctx, 'seed', 0) or 0) + 13)       # (does not draw from ctx.rng: the other streams keep their programs)
     cov_progs = ext_programs(cov_rng, ctx.tier, ctx.pick(800, 2000)) + \
-        [npc_gen.make_program(cov_rng, ctx.tier, record_coq=0, p_chain=P_CHAIN, keep_flagged=True, rich=(i % 2 == 1), sparse_values=True) for i in range(ctx.pick(200, 500))] + \
-        [npc_gen.make_program(cov_rng, ctx.tier, record_coq=0, keep_flagged=True, rich=(i % 2 == 1), sparse_values=True, op_weights=ASSIGN_WEIGHTS,
+        [npc_gen.make_program(cov_rng, ctx.tier, record_coq=0, p_chain=P_CHAIN, keep_flagged=True, rich=(i % 2 == 1), sparse_values=True, strict_alias=True) for i in range(ctx.pick(200, 500))] + \
+        [npc_gen.make_program(cov_rng, ctx.tier, record_coq=0, keep_flagged=True, rich=(i % 2 == 1), sparse_values=True, strict_alias=True, op_weights=ASSIGN_WEIGHTS,
                               p_missing=ASSIGN_P_MISSING) for i in range(ctx.pick(100, 250))]
     cov_pool = ThreadPoolExecutor(max_workers=1)
     cov_future = cov_pool.submit(lambda: cc._run_chunk('c01cov', [{'seed': 0, 'programs': cov_progs}], 'py', False, 'cov')[0][0])
